@@ -469,7 +469,7 @@ specialise(
     "C12",
     "g.dict-itemsets",
     c09_itemsets,
-    {"nest": [0, 2]},
+    {"nest": [0, 2], "lname": [0], "twice": [False]},
     timeout=400,
     kernel=("pyxform.utils:external_choices_to_csv", "pyxform.utils:has_external_choices", "pyxform.xls2json_backends:get_xlsform", "pyxform.xls2json:workbook_to_json"),
     shims=("S1", "S2", "S4", "S6"),
